@@ -58,7 +58,12 @@ def protocol_task(graph, model=None):
 
         def run():
             H.fresh = itertools.count()
-            S = H.start_state("cached")
+            # what is cached when the proposal is made: everything / nothing / only what the samplers read
+            start = ["cached", "set", "sampler-reads"][T.choose(3)]
+            S = H.start_state("set" if start != "cached" else "cached")
+            if start == "sampler-reads":
+                for n in [x for x in readable if x.startswith("nll_") or x in H.derived[-1:]]:
+                    S[n]
             fork = [StateForkType.REF, StateForkType.COPY][T.choose(2)]
             S.auto_fork_type = fork
             r = prop_roots[T.choose(len(prop_roots))]
@@ -113,7 +118,7 @@ def protocol_task(graph, model=None):
                     e = H.check_read(S, n, rec, [])
                     if e:
                         errs.append(e)
-            return dict(errs=errs, r=r, kind=["set", "put_acc", "put_idx"][kind], fork=fork.name, partial=partial, reads=reads)
+            return dict(errs=errs, r=r, kind=["set", "put_acc", "put_idx"][kind], fork=fork.name, partial=partial, reads=reads, start=start)
 
         n_bad = 0
         for c, res in st.explore(run, "R"):
@@ -166,7 +171,10 @@ torch.manual_seed(1)
 def val(n): return torch.rand((N,) if n in ind_nodes else (1,), dtype=torch.float64) + 1
 S = State(dag, auto_fork_type=None)
 for r in pops + inds: S[r] = val(r)
-for n in dag: S[n]
+if D.get('start', 'cached') == 'cached':
+    for n in dag: S[n]
+elif D.get('start') == 'sampler-reads':
+    S[list(derived)[-1]]
 S.auto_fork_type = StateForkType[D['fork']]
 r = D['r']; before = S[r].clone()
 if D['kind'] == 'set': S[r] = val(r)
